@@ -186,3 +186,45 @@ theorem PresAt.switch {β} {P2 : State → Prop} {f : State → State} {rest : M
   | ok a c' => rw [hr] at this; exact h3 _ this
 
 end Foca
+
+namespace Foca
+
+variable {P : State → Prop}
+
+/-- like `getS_bind`, keeping only that the invariant holds in the state that was read -/
+theorem Pres.getS_with {β} {f : State → M β} (h : ∀ s, P s → Pres P (f s)) : Pres P (Foca.getS >>= f) :=
+  ⟨fun c hc => by simp only [bind_run, getS_run]; exact (h c.s hc).run c hc⟩
+
+/-- `m` preserves `P` and its result satisfies `Q` -/
+structure PresR {α} (P : State → Prop) (Q : α → Prop) (m : M α) : Prop where
+  run : ∀ c, P c.s → match m c with
+    | .ok a c' => P c'.s ∧ Q a
+    | .err _ c' => P c'.s
+    | .stuck _ => True
+
+theorem PresR.bind {α β} {Q : α → Prop} {m : M α} {f : α → M β} (hm : PresR P Q m) (hf : ∀ a, Q a → Pres P (f a)) :
+    Pres P (m >>= f) := by
+  constructor
+  intro c hc
+  have := hm.run c hc
+  simp only [bind_run]
+  cases hmc : m c with
+  | stuck x => trivial
+  | err e c' => rw [hmc] at this; exact this
+  | ok a c' =>
+    rw [hmc] at this
+    exact (hf a this.2).run c' this.1
+
+theorem Pres.toR {α} {m : M α} (h : Pres P m) : PresR P (fun _ => True) m :=
+  ⟨fun c hc => by
+    have := h.run c hc
+    cases hm : m c with
+    | stuck x => trivial
+    | err e c' => rw [hm] at this; exact this
+    | ok a c' => rw [hm] at this; exact ⟨this, trivial⟩⟩
+
+/-- a leaf about `modS g`, read at one state -/
+theorem Pres.modS_at {g : State → State} (h : Pres P (Foca.modS g)) (s : State) (hs : P s) : P (g s) :=
+  h.run ⟨s, [], default⟩ hs
+
+end Foca
